@@ -253,7 +253,6 @@ TodayRefuses(pos) ==
     CASE pos = "method" -> Classes \ {"VCHAR"}
       [] pos = "cookie-name" -> Classes \ {"VCHAR", "COLON"}
       [] pos = "cookie-value" -> {"SURROGATE"}
-      [] pos = "form-name" -> SafeHeaderRefuses \cup {"LATIN1", "BMP", "ASTRAL"}
       [] OTHER -> SafeHeaderRefuses
 TodayEnc(pos) ==
     CASE pos = "cookie-value" -> "cookie"
